@@ -26,9 +26,9 @@ import (
 // verdict of `type`; numeric formats carry width rules that are not decided here).
 
 type ttDatum struct {
-	name  string
-	val   aval
-	jtype string // JSON type; "integer" for Go integers and integral floats is handled below
+	name                     string
+	val                      aval
+	jtype                    string // JSON type; "integer" for Go integers and integral floats is handled below
 	integral, goInt, numeric bool
 }
 
